@@ -619,6 +619,31 @@ func (s *Sim) quiescent() bool {
 		return true
 	}
 	s.Stats.QuiesceProbes++
+	// Two consecutive probes must both find every process idle and see the same
+	// set of processes: a go command that merely paused between reaping a child
+	// and spawning the next one is caught by the second look.
+	ok1, sig1 := s.probe()
+	if !ok1 {
+		return false
+	}
+	time.Sleep(2 * time.Millisecond)
+	ok2, sig2 := s.probe()
+	if !ok2 || sig1 != sig2 {
+		return false
+	}
+	// Re-check that nothing arrived while probing.
+	select {
+	case im := <-s.inbox:
+		s.handle(im)
+		return false
+	default:
+	}
+	s.dirty = false
+	return true
+}
+
+// probe looks once at every process of every client's process group.
+func (s *Sim) probe() (idle bool, signature string) {
 	pgids := map[int]bool{}
 	for _, c := range s.Clients {
 		if c.started && !c.Done {
@@ -626,9 +651,18 @@ func (s *Sim) quiescent() bool {
 		}
 	}
 	if len(pgids) == 0 {
-		return true
+		return true, ""
 	}
 	procs := scanGroups(pgids)
+	var sig strings.Builder
+	for _, pi := range procs {
+		fmt.Fprintf(&sig, "%d:%d;", pi.pid, pi.ppid)
+	}
+	ok := s.probeProcs(procs)
+	return ok, sig.String()
+}
+
+func (s *Sim) probeProcs(procs []procInfo) bool {
 	children := map[int][]procInfo{}
 	for _, pi := range procs {
 		children[pi.ppid] = append(children[pi.ppid], pi)
@@ -682,14 +716,6 @@ func (s *Sim) quiescent() bool {
 			return false
 		}
 	}
-	// Re-check that nothing arrived while probing.
-	select {
-	case im := <-s.inbox:
-		s.handle(im)
-		return false
-	default:
-	}
-	s.dirty = false
 	return true
 }
 
